@@ -172,7 +172,7 @@ class Result:
 class Driver:
     def __init__(self, exp, chooser, script, on_launch=None, max_decisions=4000, max_items=60000,
                  stuck_after_idle_waits=80, do_restart_sources=None, on_component_run=None, memoized=(),
-                 post_run=None):
+                 post_run=None, delay_finished=None):
         self.exp = exp
         self.chooser = chooser
         self.script = script
@@ -195,6 +195,10 @@ class Driver:
         self.finish_requested: Dict[str, str] = {}    # first final state handed to ComponentState.finish() per node
         self.memoized = set(memoized)                  # nodes for which the (stubbed) memoization lookup hits
         self.post_run = post_run                       # called after the stages ran, while the patches are still active
+        # node -> number of scheduler passes by which the controller's finishedCheck() for that node is late (the
+        # pool thread that delivers notifyFinished to the controller may be scheduled arbitrarily late; the component's
+        # own state is final in the meantime)
+        self.delay_finished = dict(delay_finished or {})
 
     # -- hooks ------------------------------------------------------------------------------------
     def _on_launch(self, ref, job, n, reason):
@@ -250,6 +254,20 @@ class Driver:
             drv.finish_requested.setdefault(cs.specification.reference, finalState)
             return orig_cs_finish(cs, finalState)
         workflow.ComponentState.finish = observed_finish
+        orig_finished_check = control.Controller.finishedCheck
+        late_pool = K.DetPool(None, "late-finishedCheck")
+
+        def late_finished_check(ctrl, state, component):
+            ref = component.specification.reference
+            left = drv.delay_finished.get(ref, 0)
+            if left > 0:
+                drv.delay_finished[ref] = left - 1
+                # one scheduler wait lasts 5 virtual seconds: come back just after the next pass
+                late_pool.schedule_relative(5.5, lambda sch=None, st_=None: late_finished_check(ctrl, state, component))
+                return None
+            return orig_finished_check(ctrl, state, component)
+        if self.delay_finished:
+            control.Controller.finishedCheck = late_finished_check
         saved = dict(backends.backendGeneratorMap)
         for k in list(backends.backendGeneratorMap):
             backends.backendGeneratorMap[k] = self.backend
@@ -319,6 +337,7 @@ class Driver:
         finally:
             workflow.ComponentState.run = orig_cs_run
             workflow.ComponentState.finish = orig_cs_finish
+            control.Controller.finishedCheck = orig_finished_check
             backends.backendGeneratorMap.clear()
             backends.backendGeneratorMap.update(saved)
             try:
